@@ -588,6 +588,13 @@ class Kernel:
         if fo.kind == "EXT":
             k.sense, k.strict = fo.sense, fo.strict
             k.band = self.canon(getattr(fo, "cond_text", fo.cond), loop.id) if getattr(fo, "band", False) else None
+            if init is not None and init[0] == "call" and init[1] == fo.sense and len(init[2]) == 2 and not init[3] and k.filter == TRUE and loop.whole:
+                # `best = min(1, key(first))` in front of a min-fold over the whole list: the first element is folded in again anyway,
+                # so the fold starts from the constant
+                consts = [a for a in init[2] if is_const(a) and isinstance(a[1], (int, float)) and not isinstance(a[1], bool)]
+                rest = [a for a in init[2] if a not in consts]
+                if len(consts) == 1 and len(rest) == 1 and self.first_elem_init(rest[0], loop) == k.term:
+                    init = consts[0]
             fe = self.first_elem_init(init, loop) if init is not None else None
             fe_filter = None
             if fe is not None and fe != k.term:
